@@ -1960,6 +1960,28 @@ OptResult NifFile::OptimizeFor(OptOptions& options) {
 				if (shape->IsSkinned()) {
 					auto skinInst = hdr.GetBlock<NiSkinInstance>(shape->SkinInstanceRef());
 					if (skinInst) {
+						auto skinData = hdr.GetBlock(skinInst->dataRef);
+						if (skinData && !skinData->hasVertWeights) {
+							// The weights are only stored in the vertex data of the shape, LE reads them from NiSkinData
+							for (auto& bone : skinData->bones) {
+								bone.vertexWeights.clear();
+								bone.numVertices = 0;
+							}
+
+							for (size_t vi = 0; vi < bsTriShape->vertData.size(); vi++) {
+								auto& vertex = bsTriShape->vertData[vi];
+								for (size_t wi = 0; wi < 4; wi++) {
+									if (vertex.weights[wi] != 0.0f && vertex.weightBones[wi] < skinData->bones.size()) {
+										auto& bone = skinData->bones[vertex.weightBones[wi]];
+										bone.vertexWeights.emplace_back(static_cast<uint16_t>(vi), vertex.weights[wi]);
+										bone.numVertices++;
+									}
+								}
+							}
+
+							skinData->hasVertWeights = 1;
+						}
+
 						auto skinPart = hdr.GetBlock(skinInst->skinPartitionRef);
 						if (skinPart) {
 							bool triangulated = skinPart->ConvertStripsToTriangles();
